@@ -1262,8 +1262,14 @@ func (c *fnCtx) scanSites(core bool) {
 					c.addSinkSite(s.Args[0], "sink "+nm+" in a String method")
 				}
 			}
-			if (nm == "QueryCtx" || nm == "ExecCtx") && len(s.Args) >= 2 {
-				c.addSinkSite(s.Args[1], "sink "+nm)
+			// round 6: every statement handed to a session (database/sql, sqlx and the repository's ISqlxDB names), and its bind arguments
+			if sp, ok := sessionCall(s); ok && len(s.Args) > sp && !c.excluded() {
+				// a wrapper method delegating to the method of the same name (StableSqlxDBWrapper.Query -> DB.Query) passes its own
+				// parameter on: the statement is judged at the calls of the wrapper, which are session calls by the same name
+				if id, isId := s.Args[sp].(*ast.Ident); !(isId && c.delegates(nm, id.Name)) {
+					c.addSinkSite(s.Args[sp], "sink "+nm)
+				}
+				c.addBindSite(s, nm, sp)
 			}
 			if core && isPkgCall(s, "fmt", "Sprintf") && !isErrorCtx(stack[:len(stack)-1]) && !c.quotedLater(stack[:len(stack)-1], s) && !c.excluded() {
 				c.addSprintfSite(s)
@@ -1309,6 +1315,20 @@ func (c *fnCtx) scanSites(core bool) {
 		}
 		return true
 	})
+}
+
+func (c *fnCtx) delegates(callee, arg string) bool {
+	// the parameter may belong to an enclosing function (the wrapper runs its call inside a function literal)
+	for k := c; k != nil; k = k.parent {
+		if _, isParam := k.params[arg]; isParam {
+			nm := k.name
+			if i := strings.LastIndex(nm, "."); i >= 0 {
+				nm = nm[i+1:]
+			}
+			return nm == callee
+		}
+	}
+	return false
 }
 
 func markNested(b *ast.BinaryExpr) {
@@ -1361,6 +1381,7 @@ func main() {
 		return nil
 	})
 	sort.Strings(dirs)
+	scanBindCalls(dirs)
 	for _, d := range dirs {
 		p := scanPkg(d)
 		if len(p.files) == 0 {
@@ -1389,5 +1410,5 @@ func main() {
 	})
 	enc := json.NewEncoder(os.Stdout)
 	enc.SetIndent("", " ")
-	enc.Encode(map[string]any{"sites": sites, "excluded": excludedFuncs, "types": typeStats, "fmt_checks": fmtChecks})
+	enc.Encode(map[string]any{"sites": sites, "excluded": excludedFuncs, "types": typeStats, "fmt_checks": fmtChecks, "bind": bindStats})
 }
